@@ -1,17 +1,56 @@
-//! C04 - not built yet.
-use crate::engine::{PropertyInfo, RunCtx};
+//! C04 - standard function blocks follow the IEC timing diagrams on every trace.
+//!
+//! Two drivers against one IEC model (`c04/model.rs`, written from IEC 61131-3 Ed.3 6.6.3.5,
+//! Tables 43-46 / Fig. 15 and the property text):
+//!
+//! 1. `pure`: generated traces through the public structs
+//!    `trust_runtime::stdlib::fbs::{Ton,Tof,Tp,Ctu,Ctd,Ctud,RTrig,FTrig,Sr,Rs}::step`.
+//! 2. `harness`: generated ST programs (1-4 instances of mixed FB types incl. the _LTIME and
+//!    typed counter variants, 1-2 call sites each, unconditional or under a generated guard)
+//!    run through `trust_runtime::harness::TestHarness` (`advance_time` + `cycle`). An
+//!    instance that is skipped accumulates the skipped time at its next call; two call sites
+//!    of one instance in one cycle give a dt = 0 call; every instance is compared with its
+//!    own model, so any cross-talk between instances shows up as a mismatch.
+//!
+//! Plus two enumerated long traces that drive CTU to the upper limit of its type (the only
+//! counter that cannot be loaded with a value near the limit).
+
+use std::cell::RefCell;
+
+use proptest::prelude::*;
+use serde_json::json;
+use trust_runtime::harness::TestHarness;
+use trust_runtime::stdlib::fbs::{Ctd, Ctu, Ctud, FTrig, RTrig, Rs, Sr, Tof, Ton, Tp};
+use trust_runtime::value::{Duration, Value};
+
+use crate::engine::tape::tape_strategy;
+use crate::engine::{catch, Probe, PropertyInfo, RunCtx};
+
+#[path = "c04/tgen.rs"]
+pub mod tgen;
+#[path = "c04/model.rs"]
+pub mod model;
+
+use tgen::{cond_eval, cond_text, fb_type, FbType, HCase, PStep, PureCase, ValTy};
+use model::{Fam, Inp, Model, Out};
 
 pub fn info() -> PropertyInfo {
     PropertyInfo {
         id: "C04",
         level: "exploration",
-        rule: "not built yet",
-        assumptions: &[],
-        workers_quick: 1,
-        workers_thorough: 1,
+        rule: "cases = (pure) one generated trace of 1-60 calls through a stdlib::fbs struct, (harness) one generated ST program with 1-4 standard FB instances and 1-40 cycles through TestHarness; non-trivial = at least one output transition between consecutive calls of an instance (timer Q toggles, counter Q/QU/QD toggles i.e. CV crosses PV or 0, an edge detector fires, a bistable flips) or a counter is asked to count at its type limit; distinct by SHA-256 of the serialised case",
+        assumptions: &[
+            "PVmax/PVmin of a counter are the limits of its integer type (IEC leaves them implementer specific; docs/specs/08 says the counter saturates at the type limits)",
+            "R_TRIG/F_TRIG follow the IEC bodies literally (M initially FALSE): F_TRIG fires on a first call with CLK=FALSE, R_TRIG on a first call with CLK=TRUE",
+            "harness driver: the first call of an instance has no previous call, so no time is attributed to it; the runtime clock is an i64 nanosecond count, so the sum of all steps of one harness trace is kept <= i64::MAX (single steps up to i64::MAX are generated; the pure driver has no such bound)",
+            "negative PT is treated as T#0s (IEC does not define it; ET range asserted is 0..=max(PT,0))",
+            "ET after a TOF/TP has expired and is idle is not asserted beyond its range; after PT changes during a running episode only the ET range and ET monotonicity are asserted until the episode ends",
+        ],
+        workers_quick: 8,
+        workers_thorough: 16,
         address_space_limit: 0,
-        watchdog_quick_s: 600,
-        watchdog_thorough_s: 3600,
+        watchdog_quick_s: 900,
+        watchdog_thorough_s: 7200,
         run,
     }
 }
@@ -21,6 +60,747 @@ pub fn helper(_args: &[String]) -> Option<i32> {
     None
 }
 
+// ------------------------------------------------------------------------------------------
+// driver 1: pure structs
+// ------------------------------------------------------------------------------------------
+
+enum Real {
+    Ton(Ton),
+    Tof(Tof),
+    Tp(Tp),
+    Ctu(Ctu),
+    Ctd(Ctd),
+    Ctud(Ctud),
+    RTrig(RTrig),
+    FTrig(FTrig),
+    Sr(Sr),
+    Rs(Rs),
+}
+
+impl Real {
+    fn new(fam: Fam) -> Real {
+        match fam {
+            Fam::Ton => Real::Ton(Ton::new()),
+            Fam::Tof => Real::Tof(Tof::new()),
+            Fam::Tp => Real::Tp(Tp::new()),
+            Fam::Ctu => Real::Ctu(Ctu::new()),
+            Fam::Ctd => Real::Ctd(Ctd::new()),
+            Fam::Ctud => Real::Ctud(Ctud::new()),
+            Fam::RTrig => Real::RTrig(RTrig::new()),
+            Fam::FTrig => Real::FTrig(FTrig::new()),
+            Fam::Sr => Real::Sr(Sr::new()),
+            Fam::Rs => Real::Rs(Rs::new()),
+        }
+    }
+
+    fn step(&mut self, i: &Inp, dt: i64) -> Out {
+        let pt = Duration::from_nanos(i.p.clamp(i64::MIN as i128, i64::MAX as i128) as i64);
+        let d = Duration::from_nanos(dt);
+        let pv = i.p.clamp(i16::MIN as i128, i16::MAX as i128) as i16;
+        let timer = |o: trust_runtime::stdlib::fbs::TimerOutput| Out {
+            q: o.q,
+            q2: false,
+            v: o.et.as_nanos() as i128,
+        };
+        let bit = |q: bool| Out {
+            q,
+            q2: false,
+            v: 0,
+        };
+        match self {
+            Real::Ton(f) => timer(f.step(i.a, pt, d)),
+            Real::Tof(f) => timer(f.step(i.a, pt, d)),
+            Real::Tp(f) => timer(f.step(i.a, pt, d)),
+            Real::Ctu(f) => {
+                let o = f.step(i.a, i.r, pv);
+                Out {
+                    q: o.q,
+                    q2: false,
+                    v: o.cv as i128,
+                }
+            }
+            Real::Ctd(f) => {
+                let o = f.step(i.a, i.l, pv);
+                Out {
+                    q: o.q,
+                    q2: false,
+                    v: o.cv as i128,
+                }
+            }
+            Real::Ctud(f) => {
+                let o = f.step(i.a, i.b, i.r, i.l, pv);
+                Out {
+                    q: o.qu,
+                    q2: o.qd,
+                    v: o.cv as i128,
+                }
+            }
+            Real::RTrig(f) => bit(f.step(i.a)),
+            Real::FTrig(f) => bit(f.step(i.a)),
+            Real::Sr(f) => bit(f.step(i.a, i.r)),
+            Real::Rs(f) => bit(f.step(i.a, i.r)),
+        }
+    }
+}
+
+fn fmt_inp(fam: Fam, i: &Inp) -> String {
+    match fam {
+        Fam::Ton | Fam::Tof | Fam::Tp => format!("IN={} PT={}ns", i.a, i.p),
+        Fam::Ctu => format!("CU={} R={} PV={}", i.a, i.r, i.p),
+        Fam::Ctd => format!("CD={} LD={} PV={}", i.a, i.l, i.p),
+        Fam::Ctud => format!("CU={} CD={} R={} LD={} PV={}", i.a, i.b, i.r, i.l, i.p),
+        Fam::RTrig | Fam::FTrig => format!("CLK={}", i.a),
+        Fam::Sr => format!("S1={} R={}", i.a, i.r),
+        Fam::Rs => format!("S={} R1={}", i.a, i.r),
+    }
+}
+
+fn fmt_out(fam: Fam, o: &Out) -> String {
+    match fam {
+        Fam::Ton | Fam::Tof | Fam::Tp => format!("Q={} ET={}ns", o.q, o.v),
+        Fam::Ctu | Fam::Ctd => format!("Q={} CV={}", o.q, o.v),
+        Fam::Ctud => format!("QU={} QD={} CV={}", o.q, o.q2, o.v),
+        Fam::RTrig | Fam::FTrig => format!("Q={}", o.q),
+        Fam::Sr | Fam::Rs => format!("Q1={}", o.q),
+    }
+}
+
+fn pure_history(fam: Fam, steps: &[PStep], outs: &[Out]) -> String {
+    let mut s = String::new();
+    let from = steps.len().saturating_sub(12);
+    for (k, st) in steps.iter().enumerate().skip(from) {
+        s.push_str(&format!(
+            "\n    call {k}: dt={}ns {} -> {}",
+            st.dt,
+            fmt_inp(fam, &st.i),
+            outs.get(k).map(|o| fmt_out(fam, o)).unwrap_or_else(|| "<panic>".into())
+        ));
+    }
+    s
+}
+
+fn label_model(probe: &mut Probe, prefix: &str, m: &Model) {
+    for e in &m.events {
+        probe.label(format!("{prefix}{}:{e}", m.fam.name()));
+    }
+    if m.transitions > 0 {
+        probe.label(format!("{prefix}{}:output_transition", m.fam.name()));
+    }
+}
+
+fn model_nontrivial(m: &Model) -> bool {
+    m.transitions > 0 || m.events.iter().any(|e| e.starts_with("saturated"))
+}
+
+fn check_pure(case: &PureCase, probe: &mut Probe) -> Result<(), String> {
+    let fam = case.fam;
+    let mut real = Real::new(fam);
+    let mut model = Model::new(fam, i16::MIN as i128, i16::MAX as i128);
+    let mut outs: Vec<Out> = Vec::with_capacity(case.steps.len());
+    let mut extreme = false;
+    for (k, st) in case.steps.iter().enumerate() {
+        if st.dt < 0 {
+            return Err("malformed case: negative dt".into());
+        }
+        if st.dt > i64::MAX / 4 {
+            extreme = true;
+        }
+        let out = match catch(|| real.step(&st.i, st.dt)) {
+            Ok(o) => o,
+            Err(p) => {
+                return Err(format!(
+                    "{} (pure struct) panicked at call {k}: {p}{}",
+                    fam.name(),
+                    pure_history(fam, &case.steps[..=k], &outs)
+                ))
+            }
+        };
+        outs.push(out);
+        if let Err(e) = model.call(&st.i, st.dt as i128, &out) {
+            return Err(format!(
+                "{} (pure struct) call {k}: {e}{}",
+                fam.name(),
+                pure_history(fam, &case.steps[..=k], &outs)
+            ));
+        }
+    }
+    probe.label(format!("pure:{}", fam.name()));
+    label_model(probe, "pure:", &model);
+    if extreme && fam.is_timer() {
+        probe.label("pure:extreme_dt");
+    }
+    if model_nontrivial(&model) {
+        probe.nontrivial(&serde_json::to_vec(case).unwrap_or_default());
+        probe.sample(json!({"driver": "pure", "kind": fam.name(), "calls": case.steps.len(), "output_transitions": model.transitions, "events": model.events}));
+    }
+    Ok(())
+}
+
+// ------------------------------------------------------------------------------------------
+// driver 2: ST programs through TestHarness
+// ------------------------------------------------------------------------------------------
+
+/// Names of the input variables handed to one call.
+struct ArgNames<'a> {
+    a: &'a str,
+    b: &'a str,
+    r: &'a str,
+    l: &'a str,
+    p: &'a str,
+}
+
+fn call_args(ty: &FbType, n: &ArgNames) -> String {
+    let ArgNames { a, b, r, l, p } = n;
+    match ty.fam {
+        Fam::Ton | Fam::Tof | Fam::Tp => format!("IN := {a}, PT := {p}"),
+        Fam::Ctu => format!("CU := {a}, R := {r}, PV := {p}"),
+        Fam::Ctd => format!("CD := {a}, LD := {l}, PV := {p}"),
+        Fam::Ctud => format!("CU := {a}, CD := {b}, R := {r}, LD := {l}, PV := {p}"),
+        Fam::RTrig | Fam::FTrig => format!("CLK := {a}"),
+        Fam::Sr => format!("S1 := {a}, R := {r}"),
+        Fam::Rs => format!("S := {a}, R1 := {r}"),
+    }
+}
+
+/// Arguments of a call of the user wrapper FB around `ty`.
+fn wrapper_args(ty: &FbType, n: &ArgNames) -> String {
+    let ArgNames { a, b, r, l, p } = n;
+    match ty.fam {
+        Fam::Ton | Fam::Tof | Fam::Tp => format!("wa := {a}, wp := {p}"),
+        Fam::Ctu => format!("wa := {a}, wr := {r}, wp := {p}"),
+        Fam::Ctd => format!("wa := {a}, wl := {l}, wp := {p}"),
+        Fam::Ctud => format!("wa := {a}, wb := {b}, wr := {r}, wl := {l}, wp := {p}"),
+        Fam::RTrig | Fam::FTrig => format!("wa := {a}"),
+        Fam::Sr | Fam::Rs => format!("wa := {a}, wr := {r}"),
+    }
+}
+
+/// (output parameter, suffix of the capture variable)
+fn outputs(ty: &FbType, wrapped: bool) -> Vec<(&'static str, char)> {
+    if wrapped {
+        return match ty.fam {
+            Fam::Ton | Fam::Tof | Fam::Tp | Fam::Ctu | Fam::Ctd => vec![("wq", 'q'), ("wv", 'v')],
+            Fam::Ctud => vec![("wq", 'q'), ("ww", 'w'), ("wv", 'v')],
+            _ => vec![("wq", 'q')],
+        };
+    }
+    match ty.fam {
+        Fam::Ton | Fam::Tof | Fam::Tp => vec![("Q", 'q'), ("ET", 'v')],
+        Fam::Ctu | Fam::Ctd => vec![("Q", 'q'), ("CV", 'v')],
+        Fam::Ctud => vec![("QU", 'q'), ("QD", 'w'), ("CV", 'v')],
+        Fam::RTrig | Fam::FTrig => vec![("Q", 'q')],
+        Fam::Sr | Fam::Rs => vec![("Q1", 'q')],
+    }
+}
+
+fn wrapper_text(ty: &FbType) -> String {
+    let mut s = format!("FUNCTION_BLOCK W_{}\nVAR_INPUT wa : BOOL; wb : BOOL; wr : BOOL; wl : BOOL;", ty.name);
+    if ty.val != ValTy::None {
+        s.push_str(&format!(" wp : {};", ty.val.st_name()));
+    }
+    s.push_str(" END_VAR\nVAR_OUTPUT wq : BOOL; ww : BOOL;");
+    if ty.val != ValTy::None {
+        s.push_str(&format!(" wv : {};", ty.val.st_name()));
+    }
+    s.push_str(&format!(" END_VAR\nVAR f : {}; END_VAR\n", ty.name));
+    let names = ArgNames {
+        a: "wa",
+        b: "wb",
+        r: "wr",
+        l: "wl",
+        p: "wp",
+    };
+    let mut call = format!("f({}", call_args(ty, &names));
+    for ((param, _), (wparam, _)) in outputs(ty, false).iter().zip(outputs(ty, true).iter()) {
+        call.push_str(&format!(", {param} => {wparam}"));
+    }
+    s.push_str(&call);
+    s.push_str(");\nEND_FUNCTION_BLOCK\n");
+    s
+}
+
+fn is_wrapped(case: &HCase, k: usize) -> bool {
+    case.wrapped.get(k).copied().unwrap_or(false)
+}
+
+pub fn program_text(case: &HCase, types: &[&'static FbType]) -> String {
+    let mut s = String::new();
+    let mut done: Vec<&str> = Vec::new();
+    for (k, ty) in types.iter().enumerate() {
+        if is_wrapped(case, k) && !done.contains(&ty.name) {
+            done.push(ty.name);
+            s.push_str(&wrapper_text(ty));
+        }
+    }
+    s.push_str("PROGRAM Main\nVAR\n  g0 : BOOL; g1 : BOOL;\n");
+    for (k, ty) in types.iter().enumerate() {
+        if is_wrapped(case, k) {
+            s.push_str(&format!("  f{k} : W_{};\n", ty.name));
+        } else {
+            s.push_str(&format!("  f{k} : {};\n", ty.name));
+        }
+        s.push_str(&format!("  a{k} : BOOL; x{k} : BOOL; b{k} : BOOL; r{k} : BOOL; l{k} : BOOL;\n"));
+        s.push_str(&format!("  q{k} : BOOL; w{k} : BOOL;\n"));
+        if ty.val != ValTy::None {
+            s.push_str(&format!("  p{k} : {}; v{k} : {};\n", ty.val.st_name(), ty.val.st_name()));
+        }
+    }
+    for (j, site) in case.sites.iter().enumerate() {
+        let ty = types[site.inst];
+        s.push_str(&format!("  s{j}m : BOOL; s{j}q : BOOL; s{j}w : BOOL;"));
+        if ty.val != ValTy::None {
+            s.push_str(&format!(" s{j}v : {};", ty.val.st_name()));
+        }
+        s.push('\n');
+    }
+    s.push_str("END_VAR\n");
+    for (j, site) in case.sites.iter().enumerate() {
+        let k = site.inst;
+        let ty = types[k];
+        let wrapped = is_wrapped(case, k);
+        let primary = if site.alt { format!("x{k}") } else { format!("a{k}") };
+        let (b, r, l, p) = (format!("b{k}"), format!("r{k}"), format!("l{k}"), format!("p{k}"));
+        let names = ArgNames {
+            a: &primary,
+            b: &b,
+            r: &r,
+            l: &l,
+            p: &p,
+        };
+        let mut call = if wrapped {
+            format!("f{k}({}", wrapper_args(ty, &names))
+        } else {
+            format!("f{k}({}", call_args(ty, &names))
+        };
+        let mut after = String::new();
+        for (param, suffix) in outputs(ty, wrapped) {
+            let must_bind = ty.any_int && !wrapped && param == "CV";
+            if site.bind || must_bind {
+                call.push_str(&format!(", {param} => s{j}{suffix}"));
+            } else {
+                after.push_str(&format!(" s{j}{suffix} := f{k}.{param};"));
+            }
+        }
+        call.push_str(");");
+        match cond_text(site.cond) {
+            None => s.push_str(&format!("{call}{after} s{j}m := TRUE;\n")),
+            Some(c) => s.push_str(&format!("IF {c} THEN\n  {call}{after} s{j}m := TRUE;\nEND_IF;\n")),
+        }
+    }
+    for (k, ty) in types.iter().enumerate() {
+        let wrapped = is_wrapped(case, k);
+        for (param, suffix) in outputs(ty, wrapped) {
+            if ty.any_int && !wrapped && param == "CV" {
+                continue;
+            }
+            s.push_str(&format!("{suffix}{k} := f{k}.{param};\n"));
+        }
+    }
+    s.push_str("END_PROGRAM\n");
+    s
+}
+
+fn mk_val(ty: ValTy, x: i128) -> Value {
+    match ty {
+        ValTy::Time => Value::Time(Duration::from_nanos(x as i64)),
+        ValTy::LTime => Value::LTime(Duration::from_nanos(x as i64)),
+        ValTy::Int => Value::Int(x as i16),
+        ValTy::DInt => Value::DInt(x as i32),
+        ValTy::LInt => Value::LInt(x as i64),
+        ValTy::UDInt => Value::UDInt(x as u32),
+        ValTy::ULInt => Value::ULInt(x as u64),
+        ValTy::None => Value::Bool(false),
+    }
+}
+
+fn val_num(v: &Value) -> Option<i128> {
+    Some(match v {
+        Value::SInt(x) => *x as i128,
+        Value::Int(x) => *x as i128,
+        Value::DInt(x) => *x as i128,
+        Value::LInt(x) => *x as i128,
+        Value::USInt(x) => *x as i128,
+        Value::UInt(x) => *x as i128,
+        Value::UDInt(x) => *x as i128,
+        Value::ULInt(x) => *x as i128,
+        Value::Time(d) | Value::LTime(d) => d.as_nanos() as i128,
+        _ => return None,
+    })
+}
+
+fn read_bool(h: &TestHarness, name: &str) -> Result<bool, String> {
+    match h.get_output(name) {
+        Some(Value::Bool(b)) => Ok(b),
+        other => Err(format!("variable {name} holds {other:?}, expected a BOOL")),
+    }
+}
+
+fn read_num(h: &TestHarness, name: &str) -> Result<i128, String> {
+    match h.get_output(name) {
+        Some(v) => val_num(&v).ok_or_else(|| format!("variable {name} holds {v:?}, expected a number/time")),
+        None => Err(format!("variable {name} is missing")),
+    }
+}
+
+fn read_out(h: &TestHarness, ty: &FbType, prefix: &str, suffix_first: bool, idx: usize, no_cv: bool) -> Result<Out, String> {
+    // capture variables are s<j>q / s<j>w / s<j>v, final reads q<k> / w<k> / v<k>
+    let name = |c: char| {
+        if suffix_first {
+            format!("{c}{idx}")
+        } else {
+            format!("{prefix}{idx}{c}")
+        }
+    };
+    let q = read_bool(h, &name('q'))?;
+    let q2 = if ty.fam == Fam::Ctud { read_bool(h, &name('w'))? } else { false };
+    let v = if ty.val != ValTy::None && !no_cv {
+        read_num(h, &name('v'))?
+    } else {
+        0
+    };
+    Ok(Out { q, q2, v })
+}
+
+fn case_types(case: &HCase) -> Result<Vec<&'static FbType>, String> {
+    let mut types = Vec::new();
+    for n in &case.insts {
+        types.push(fb_type(n).ok_or_else(|| format!("malformed case: unknown FB type {n}"))?);
+    }
+    if types.is_empty() {
+        return Err("malformed case: no instance".into());
+    }
+    for s in &case.sites {
+        if s.inst >= types.len() {
+            return Err("malformed case: call site of a missing instance".into());
+        }
+    }
+    for c in &case.cycles {
+        if c.inp.len() != types.len() || c.alt.len() != types.len() || c.dt < 0 {
+            return Err("malformed case: cycle does not match the instance list".into());
+        }
+    }
+    Ok(types)
+}
+
+thread_local! {
+    static INFRA: RefCell<Vec<String>> = const { RefCell::new(Vec::new()) };
+}
+
+fn infra(msg: String) {
+    INFRA.with(|v| {
+        let mut v = v.borrow_mut();
+        if v.len() < 5 && !v.contains(&msg) {
+            v.push(msg);
+        }
+    });
+}
+
+fn check_harness(case: &HCase, probe: &mut Probe) -> Result<(), String> {
+    let types = case_types(case)?;
+    let text = program_text(case, &types);
+    let mut h = match catch(|| TestHarness::from_source(&text)) {
+        Ok(Ok(h)) => h,
+        Ok(Err(e)) => {
+            // the generator only emits constructs the probes showed to be accepted: a compile
+            // error is trouble of the check, not a verdict on the function blocks
+            infra(format!("generated program does not compile: {e:?}\n{text}"));
+            probe.label("harness:compile_error(inconclusive)");
+            return Ok(());
+        }
+        Err(p) => {
+            infra(format!("compiling the generated program panicked: {p}\n{text}"));
+            probe.label("harness:compile_panic(inconclusive)");
+            return Ok(());
+        }
+    };
+    let n = types.len();
+    let mut models: Vec<Model> = types
+        .iter()
+        .map(|t| {
+            let (lo, hi) = t.val.limits();
+            Model::new(t.fam, lo, hi)
+        })
+        .collect();
+    let mut last_call: Vec<Option<i128>> = vec![None; n];
+    let mut log: Vec<String> = Vec::new();
+    let mut now: i128 = 0;
+    let mut flags: Vec<&'static str> = Vec::new();
+    let mut flag = |f: &'static str| {
+        if !flags.contains(&f) {
+            flags.push(f);
+        }
+    };
+    let ctx = |log: &[String], text: &str| {
+        let from = log.len().saturating_sub(14);
+        format!("\n  history (last calls):{}\n  program:\n{}", log[from..].iter().map(|l| format!("\n    {l}")).collect::<String>(), text)
+    };
+    for (c, cy) in case.cycles.iter().enumerate() {
+        h.set_input("g0", cy.g0);
+        h.set_input("g1", cy.g1);
+        for (k, ty) in types.iter().enumerate() {
+            let i = &cy.inp[k];
+            let (lo, hi) = ty.val.limits();
+            if ty.val != ValTy::None && (i.p < lo || i.p > hi) {
+                return Err("malformed case: preset outside the type's range".into());
+            }
+            h.set_input(&format!("a{k}"), i.a);
+            h.set_input(&format!("x{k}"), cy.alt[k]);
+            h.set_input(&format!("b{k}"), i.b);
+            h.set_input(&format!("r{k}"), i.r);
+            h.set_input(&format!("l{k}"), i.l);
+            if ty.val != ValTy::None {
+                h.set_input(&format!("p{k}"), mk_val(ty.val, i.p));
+            }
+        }
+        for j in 0..case.sites.len() {
+            h.set_input(&format!("s{j}m"), false);
+        }
+        if now + cy.dt as i128 > i64::MAX as i128 {
+            return Err("malformed case: total time exceeds the clock's range".into());
+        }
+        now += cy.dt as i128;
+        if cy.dt > i64::MAX / 4 {
+            flag("harness:extreme_dt");
+        }
+        let res = match catch(|| {
+            h.advance_time(Duration::from_nanos(cy.dt));
+            h.cycle()
+        }) {
+            Ok(r) => r,
+            Err(p) => {
+                return Err(format!("cycle {c} (dt={}ns) panicked: {p}{}", cy.dt, ctx(&log, &text)));
+            }
+        };
+        if !res.errors.is_empty() {
+            return Err(format!(
+                "cycle {c} (dt={}ns) faulted: {:?}{}",
+                cy.dt,
+                res.errors,
+                ctx(&log, &text)
+            ));
+        }
+        let mut called_this_cycle = vec![false; n];
+        for (j, site) in case.sites.iter().enumerate() {
+            let k = site.inst;
+            let ty = types[k];
+            let executed = cond_eval(site.cond, cy.g0, cy.g1);
+            let marker = read_bool(&h, &format!("s{j}m"))?;
+            if marker != executed {
+                infra(format!(
+                    "call-site guard {:?} evaluated to {marker} with g0={} g1={} (expected {executed}); not a function-block matter\n{text}",
+                    cond_text(site.cond),
+                    cy.g0,
+                    cy.g1
+                ));
+                return Ok(());
+            }
+            if !executed {
+                continue;
+            }
+            let mut inp = cy.inp[k];
+            if site.alt {
+                inp.a = cy.alt[k];
+            }
+            let dt = match last_call[k] {
+                Some(t) => now - t,
+                None => 0,
+            };
+            if let Some(t) = last_call[k] {
+                if dt > cy.dt as i128 {
+                    flag("harness:skipped_then_called");
+                }
+                if t == now && called_this_cycle[k] {
+                    flag("harness:two_calls_in_one_cycle");
+                }
+            }
+            last_call[k] = Some(now);
+            called_this_cycle[k] = true;
+            let out = read_out(&h, ty, "s", false, j, false).map_err(|e| format!("{e}{}", ctx(&log, &text)))?;
+            log.push(format!(
+                "cycle {c} site {j}: f{k} ({}) dt={dt}ns {} -> {}",
+                ty.name,
+                fmt_inp(ty.fam, &inp),
+                fmt_out(ty.fam, &out)
+            ));
+            if let Err(e) = models[k].call(&inp, dt, &out) {
+                return Err(format!(
+                    "cycle {c}, call site {j}, instance f{k} : {}: {e}{}",
+                    ty.name,
+                    ctx(&log, &text)
+                ));
+            }
+        }
+        // outputs as seen at the end of the cycle: those of the instance's last call, or the
+        // initial values if it has not been called yet - whatever the other instances did
+        for (k, ty) in types.iter().enumerate() {
+            let no_cv = ty.any_int && !is_wrapped(case, k);
+            let got = read_out(&h, ty, "", true, k, no_cv).map_err(|e| format!("{e}{}", ctx(&log, &text)))?;
+            let mut want = if models[k].calls > 0 { models[k].last_out } else { Out::default() };
+            if no_cv {
+                want.v = 0;
+            }
+            if models[k].calls == 0 {
+                flag("harness:instance_not_called_yet");
+            }
+            if got != want {
+                return Err(format!(
+                    "cycle {c}: outputs of f{k} : {} read at the end of the cycle are {} but its last call returned {} ({}){}",
+                    ty.name,
+                    fmt_out(ty.fam, &got),
+                    fmt_out(ty.fam, &want),
+                    if called_this_cycle[k] { "called in this cycle" } else { "NOT called in this cycle: another instance's call changed it" },
+                    ctx(&log, &text)
+                ));
+            }
+        }
+    }
+    probe.label(format!("harness:instances={n}"));
+    for ty in &types {
+        probe.label(format!("harness:type={}", ty.name));
+    }
+    if case.sites.iter().any(|s| s.cond != 0) {
+        probe.label("harness:guarded_call_site");
+    }
+    if (0..n).any(|k| is_wrapped(case, k)) {
+        probe.label("harness:instance_inside_user_fb");
+    }
+    {
+        let mut names: Vec<&str> = types.iter().map(|t| t.name).collect();
+        names.sort();
+        let before = names.len();
+        names.dedup();
+        if names.len() < before {
+            probe.label("harness:two_instances_of_one_type");
+        }
+    }
+    for f in flags {
+        probe.label(f);
+    }
+    for m in &models {
+        label_model(probe, "harness:", m);
+    }
+    if models.iter().any(model_nontrivial) {
+        probe.nontrivial(&serde_json::to_vec(case).unwrap_or_default());
+        probe.sample(json!({
+            "driver": "harness",
+            "instances": case.insts,
+            "call_sites": case.sites.len(),
+            "cycles": case.cycles.len(),
+            "output_transitions": models.iter().map(|m| m.transitions).collect::<Vec<_>>(),
+        }));
+    }
+    Ok(())
+}
+
+// ------------------------------------------------------------------------------------------
+// enumerated: CTU driven to the upper limit of its type
+// ------------------------------------------------------------------------------------------
+
+fn ctu_saturation_pure(probe: &mut Probe) -> Result<(), String> {
+    let mut real = Ctu::new();
+    let mut model = Model::new(Fam::Ctu, i16::MIN as i128, i16::MAX as i128);
+    let edges = i16::MAX as u32 + 40;
+    for k in 0..2 * edges {
+        let inp = Inp {
+            a: k % 2 == 0,
+            p: if k % 7 == 0 { i16::MAX as i128 } else { 32000 },
+            ..Inp::default()
+        };
+        let out = catch(|| {
+            let o = real.step(inp.a, inp.r, inp.p as i16);
+            Out {
+                q: o.q,
+                q2: false,
+                v: o.cv as i128,
+            }
+        })
+        .map_err(|p| format!("Ctu (pure struct) panicked at call {k} of the saturation trace: {p}"))?;
+        model
+            .call(&inp, 0, &out)
+            .map_err(|e| format!("Ctu (pure struct) saturation trace, call {k}: {e}"))?;
+    }
+    if !model.events.contains(&"saturated_high") {
+        return Err("saturation trace did not reach the limit (check bug)".into());
+    }
+    probe.label("pure:CTU:long_saturation_trace");
+    probe.nontrivial(b"ctu_saturation_pure");
+    Ok(())
+}
+
+fn ctu_saturation_harness(probe: &mut Probe) -> Result<(), String> {
+    let text = "PROGRAM Main\nVAR\n  f0 : CTU; f1 : CTU_INT; a : BOOL; p : INT; q0 : BOOL; v0 : INT; q1 : BOOL; v1 : INT;\nEND_VAR\nf0(CU := a, R := FALSE, PV := p, Q => q0, CV => v0);\nf1(CU := a, R := FALSE, PV := p); q1 := f1.Q; v1 := f1.CV;\nEND_PROGRAM\n";
+    let mut h = match TestHarness::from_source(text) {
+        Ok(h) => h,
+        Err(e) => {
+            infra(format!("saturation program does not compile: {e:?}"));
+            return Ok(());
+        }
+    };
+    let mut m0 = Model::new(Fam::Ctu, i16::MIN as i128, i16::MAX as i128);
+    let mut m1 = Model::new(Fam::Ctu, i16::MIN as i128, i16::MAX as i128);
+    let edges = i16::MAX as u32 + 40;
+    for k in 0..2 * edges {
+        let inp = Inp {
+            a: k % 2 == 0,
+            p: if k % 7 == 0 { i16::MAX as i128 } else { 32000 },
+            ..Inp::default()
+        };
+        h.set_input("a", inp.a);
+        h.set_input("p", Value::Int(inp.p as i16));
+        let res = catch(|| h.cycle()).map_err(|p| format!("CTU saturation program panicked in cycle {k}: {p}"))?;
+        if !res.errors.is_empty() {
+            return Err(format!("CTU saturation program faulted in cycle {k}: {:?}", res.errors));
+        }
+        let o0 = Out {
+            q: read_bool(&h, "q0")?,
+            q2: false,
+            v: read_num(&h, "v0")?,
+        };
+        let o1 = Out {
+            q: read_bool(&h, "q1")?,
+            q2: false,
+            v: read_num(&h, "v1")?,
+        };
+        m0.call(&inp, 0, &o0).map_err(|e| format!("CTU (harness) saturation trace, cycle {k}: {e}"))?;
+        m1.call(&inp, 0, &o1).map_err(|e| format!("CTU_INT (harness) saturation trace, cycle {k}: {e}"))?;
+    }
+    probe.label("harness:CTU:long_saturation_trace");
+    probe.nontrivial(b"ctu_saturation_harness");
+    Ok(())
+}
+
 fn run(ctx: &mut RunCtx) {
-    ctx.inconclusive("check not built yet");
+    let tier = ctx.tier;
+
+    ctx.search(
+        "pure",
+        tape_strategy(tgen::PURE_TAPE).prop_map(|t| tgen::pure_from_tape(&t)),
+        tier.pick(100_000, 2_000_000),
+        check_pure,
+    );
+
+    ctx.search(
+        "harness",
+        tape_strategy(tgen::HARNESS_TAPE).prop_map(|t| tgen::harness_from_tape(&t)),
+        tier.pick(16_000, 300_000),
+        check_harness,
+    );
+
+    if ctx.only_replay.is_none() {
+        if ctx.worker == 0 {
+            ctx.enumerated("saturation_pure", &json!({"trace": "CTU pure, 32807 rising edges"}), ctu_saturation_pure);
+        }
+        if ctx.worker == 1 % ctx.nworkers {
+            ctx.enumerated(
+                "saturation_harness",
+                &json!({"trace": "CTU and CTU_INT through TestHarness, 32807 rising edges"}),
+                ctu_saturation_harness,
+            );
+        }
+    }
+
+    let msgs: Vec<String> = INFRA.with(|v| v.borrow_mut().drain(..).collect());
+    for m in msgs {
+        ctx.inconclusive(m);
+    }
 }
